@@ -101,7 +101,7 @@ fills    := k (w<hex> | c<hex>)^k
 compound := (h- | h pfx name) k (fills simple)^k        -- the fills before a simple selector are comments
 pfx      := pn | pa | pe | pq<hex>          name := n<hex> | u
 simple   := I<hex> | C<hex> | A attr | P0<hex> | P1<hex> | F0<hex> args | F1<hex> args | N<hex> fills negarg fills
-negarg   := T pfx name | I<hex> | C<hex> | A attr | P0<hex> | P1<hex>
+negarg   := T pfx name | I<hex> | C<hex> | A attr | P0<hex> | P1<hex> | F0<hex> args | F1<hex> args
 attr     := fills pfx n<hex> fills (o- | o(eq|inc|dash|pre|suf|sub) fills (vi<hex>|vs<hex>) fills)
 args     := k (a+ | a- | an<hex> | ad<hex> | as<hex> | ai<hex> | aw<hex> | ac<hex>)^k
 gap      := fills (g- | g> fills | g+ fills | g~ fills)
@@ -205,12 +205,14 @@ def pNegArg : P NegArg
   | w :: ws =>
     if w == "T" then (match pTypeSel ws with | some (t, ws) => some (.type t, ws) | none => none)
     else if w == "A" then (match pAttr ws with | some (a, ws) => some (.attr a, ws) | none => none)
-    else match tagged "I" w, tagged "C" w, tagged "P0" w, tagged "P1" w with
-      | some v, _, _, _ => some (.id v, ws)
-      | _, some v, _, _ => some (.cls v, ws)
-      | _, _, some v, _ => some (.pseudo false v, ws)
-      | _, _, _, some v => some (.pseudo true v, ws)
-      | _, _, _, _ => none
+    else match tagged "I" w, tagged "C" w, tagged "P0" w, tagged "P1" w, tagged "F0" w, tagged "F1" w with
+      | some v, _, _, _, _, _ => some (.id v, ws)
+      | _, some v, _, _, _, _ => some (.cls v, ws)
+      | _, _, some v, _, _, _ => some (.pseudo false v, ws)
+      | _, _, _, some v, _, _ => some (.pseudo true v, ws)
+      | _, _, _, _, some v, _ => (match pCount pArg ws with | some (a, ws) => some (.func false v a, ws) | none => none)
+      | _, _, _, _, _, some v => (match pCount pArg ws with | some (a, ws) => some (.func true v a, ws) | none => none)
+      | _, _, _, _, _, _ => none
   | [] => none
 
 def pSimple : P Simple
